@@ -6,6 +6,7 @@
 import CxxModel.Theorems.FnDecl
 import CxxModel.Props.C13
 import CxxModel.Theorems.FnGen
+import CxxModel.Theorems.MethodDecl
 namespace Cxx
 open P
 
@@ -234,6 +235,233 @@ theorem toplevel_function_body_gen (env : Env) (hp : RulesProgress env.cfg = tru
     rw [htyc, hfirst.2]
     rfl
   rw [hti, hi7, hcar]
+
+
+
+/-! ### member function definitions -/
+
+/-- **one member function definition `ptr-ops f ( parameters ) qualifiers { body }`** in a class body: exactly ONE `on_class_method`
+    with the written qualifier flags and `has_body`; the body is skipped exactly, no `;` is expected -/
+theorem declarator_method_body (env : Env) (F D : Nat) (pt : DType) (location : LocRef) (doxygen : Option String)
+    (ops : List Tok) (f op ob : Tok) (content : List Tok) (cb : Tok) (plist : List Param) (quals : List Tok) (d1 : DType) (m' : Function) (w : World)
+    (bmid bf bo bc bq bb b' : Buf)
+    (blk : Block) (rest : List Block) (hstack : w.stack = blk :: rest) (hk : blk.hdr.kind = .cls)
+    (hmu : w.muted = false) (hfa : ¬ env.faultAt = some w.delivered)
+    (hpt : isFnType pt = false)
+    (hy : Yields env.cfg w.buf ops bmid) (ha : applyPtrOps pt (ops.map (·.type)) = some d1)
+    (htf : tokenEofOk env.cfg bmid = .ok (some f, bf)) (hf : f.type = "NAME") (hfv : identVal f.value = true)
+    (hto : tokenEofOk env.cfg bf = .ok (some op, bo)) (hop : op.type = "(")
+    (hparams : ∀ W : World, W.buf = bo → ∃ w7, interp env (parseParametersStep (F + 1) (core (F + 1) D) true) W = (w7, .ok (plist, false, [])) ∧
+      SameButLog W w7 ∧ w7.buf = bc)
+    (hyq : Yields env.cfg bc quals bq)
+    (haq : applyQuals { plainFunction f d1 doxygen with parameters := plist, isMethod := true, access := blk.access }
+      (quals.map (·.value)) = some m')
+    (htb : tokenEofOk env.cfg bq = .ok (some ob, bb)) (hob : ob.value = "{")
+    (hbal : Balanced "{" "}" content) (hcb : cb.type = "}") (hyb : Yields env.cfg bb (content ++ [cb]) b')
+    (hFq : quals.length + content.length + 2 ≤ F) (hF : ops.length + 1 ≤ F + 1) :
+    ∃ (w7 : World) (ev : Event),
+      interp env (declaratorBody (F + 1) (core (F + 1) (D + 1)) pt {} .none false false (location, doxygen)) w = (w7, .ok (.inr ())) ∧
+      w7.buf = b' ∧ w7.stack = { blk with loc := location } :: rest ∧
+      w7.events = w.events ++ [ev] ∧ ev.kind = .item (.classMethod { m' with hasBody := true }) ∧
+      ev.stateId = blk.id ∧ ev.parentId = rest.head?.map (·.id) ∧
+      w7.delivered = w.delivered + 1 ∧ w7.anon = w.anon ∧ w7.muted = false ∧ w7.nextId = w.nextId ∧
+      w7.mainTok = w.mainTok := by
+  simp only [identVal, Bool.and_eq_true, Bool.not_eq_true', bne_iff_ne, ne_eq] at hfv
+  obtain ⟨⟨⟨hpv, hnc⟩, hms⟩, _⟩ := hfv
+  -- the pointer chain and the name
+  obtain ⟨w1, t1, hi1, hb1, htv1, hs1⟩ := cvPtr_chain env (core (F + 1) D) false ops pt d1 (F + 1) w bmid bf f hy ha htf
+    (by rw [hf]; decide) hF
+  have hty1 : t1.type = f.type := congrArg Prod.fst htv1
+  have hv1 : t1.value = f.value := congrArg Prod.snd htv1
+  have ht1 : tokenEofOk env.cfg w1.buf = .ok (some t1, bf) := by
+    rw [hb1]; exact tokenEofOk_returnToken env.cfg t1 bf (by rw [hty1]; exact tokenEofOk_not_discard htf)
+  have hfn := applyPtrOps_notFn _ pt d1 hpt ha
+  have htop1 := interp_getTop env w1 blk rest (by rw [hs1.stack]; exact hstack)
+  obtain ⟨w2, t2, hi2, hs2, ht2, hty2, hv2⟩ := step_tokenIf_miss env ["("] w1 t1 bf ht1 (by rw [hty1, hf]; decide)
+  obtain ⟨w3, t3, hi3, hs3, ht3, hty3, hv3⟩ := step_tokenIfP_miss env (fun t => Gen.msvcConventions.contains t.value) w2 t2 bf ht2
+    (by intro c _ hcv; show Gen.msvcConventions.contains c.value = false; rw [hcv, hv2, hv1]; exact hms)
+  obtain ⟨w4, c4, hi4, hb4, hs4, hty4, hv4⟩ := step_tokenIfP_hit env (fun t => Gen.pqnameStartTokens.contains t.type) w3 t3 bf ht3
+    (by intro c hct _; show Gen.pqnameStartTokens.contains c.type = true; rw [hct, hty3, hty2, hty1, hf]; decide)
+  have hc4v : c4.value = f.value := by rw [hv4, hv3, hv2, hv1]
+  obtain ⟨w5, t5, hpq, hs5, ht5, hty5, _⟩ := plain_pqname env (F + 1) (core (F + 1) D) true false false c4 [] w4 bf bo op
+    (by rw [hty4, hty3, hty2, hty1, hf]) (by rw [hc4v]; exact hpv) (by rw [hc4v]; exact hnc) (by simp)
+    (by rw [hb4]; exact .nil _) hto (by rw [hop]; decide) (by rw [hop]; decide) (by simp)
+  -- `(`, the parameters, the end
+  obtain ⟨w6, c6, hi6, hb6, hs6, _, _⟩ := step_tokenIf_hit env ["("] (logged env w5 "parse_pqname") t5 bo
+    (by rw [logged_buf']; exact ht5) (by rw [hty5, hop]; decide)
+  have hsl6 : SameButLog w w6 := (((((hs1.trans hs2).trans hs3).trans hs4).trans hs5).butLog.trans (logged_butLog env w5 _)).trans hs6.butLog
+  have hst6 : w6.stack = blk :: rest := by rw [hsl6.stack]; exact hstack
+  have htop6 := interp_getTop env { w6 with stack := { blk with loc := location } :: rest } { blk with loc := location } rest rfl
+  obtain ⟨w7, hi7, hs7, hb7⟩ := hparams { w6 with stack := { blk with loc := location } :: rest } hb6
+  have htop7 := interp_getTop env w7 { blk with loc := location } rest hs7.stack
+  obtain ⟨w8, hi8, hb8, hs8⟩ := methodEnd_quals_body env (core (F + 1) (D + 1)) quals
+    { plainFunction f d1 doxygen with parameters := plist, isMethod := true, access := blk.access } m' F w7 bq bb b' ob content cb
+    (by rw [hb7]; exact hyq) haq htb hob hyb hbal hcb hFq
+  obtain ⟨_, _, _, _, _, _, _, _, _, _, hbody⟩ := applyQuals_flags _ _ _ haq
+  have htrail := applyQuals_trailing _ _ _ haq
+  have hst8 : w8.stack = { blk with loc := location } :: rest := by rw [hs8.stack, hs7.stack]
+  have hmu8 : w8.muted = false := by rw [hs8.muted, hs7.muted]; show w6.muted = _; rw [hsl6.muted]; exact hmu
+  have hdl8 : w8.delivered = w.delivered := by rw [hs8.delivered, hs7.delivered]; exact hsl6.delivered
+  have hev8 : w8.events = w.events := by rw [hs8.events, hs7.events]; exact hsl6.events
+  have hdel := deliver_passing env w8 (mkEvent w8 (.item (.classMethod { m' with hasBody := true }))
+    { blk with loc := location } (rest.head?.map (·.id))) hmu8 (by rw [hdl8]; exact hfa)
+  refine ⟨{ w8 with events := w8.events ++ [(mkEvent w8 (.item (.classMethod { m' with hasBody := true }))
+    { blk with loc := location } (rest.head?.map (·.id)))], delivered := w8.delivered + 1 }, (mkEvent w8 (.item (.classMethod { m' with hasBody := true }))
+    { blk with loc := location } (rest.head?.map (·.id))), ?_, hb8, hst8, by show w8.events ++ _ = _; rw [hev8], rfl, rfl, rfl,
+    by show w8.delivered + 1 = _; rw [hdl8], ?_, hmu8, ?_, ?_⟩
+  · have hi8' := hi8
+    simp only [plainFunction] at hi8' hbody htrail
+    unfold declaratorBody parseDecl parseCvPtr parseFunction
+    simp only [bind, interp_bind, core_parseCvPtrOrFn, core_parsePqname, core_parseParameters, hi1, hfn, Bool.false_eq_true, ↓reduceIte,
+      pure, interp, htop1, hi2, Option.isSome_some, Option.isSome_none, P.tokenIfVal, P.tokenIfInSet, hi3, hi4, hpq, List.map_nil, hc4v,
+      hi6, PQName.segments, List.getLast?_singleton, Option.map_some, isNameSeg, Option.getD_some, Bool.not_true, P.setLoc, hst6, htop6,
+      hi7, List.isEmpty_nil, Block.view, hk, decide_true, Bool.true_or, Bool.not_false, Bool.and_true, List.length_singleton,
+      (by decide : ¬ (1 > 1)), hasKey, List.any_nil, Option.map_none, currentAccess, htop7, hi8', P.emit, hst8] at hdel ⊢
+    rw [hdel]
+    simp only [htrail, Bool.true_or, Bool.or_true, ↓reduceIte, bind, interp_bind, pure, interp]
+  · show w8.anon = _; rw [hs8.anon, hs7.anon]; exact hsl6.anon
+  · show w8.nextId = _; rw [hs8.nextId, hs7.nextId]; exact hsl6.nextId
+  · show w8.mainTok = _; rw [hs8.mainTok, hs7.mainTok]; exact hsl6.mainTok
+
+
+theorem parseDeclarations_method_body_gen (env : Env) (F D : Nat) (tok : CTok) (doxygen : Option String)
+    (toks : List Tok) (f : Tok) (trest : List Tok) (segs : List PQSeg) (cst vol : Bool) (ops : List Tok) (x op : Tok) (plist : List Param) (ob : Tok) (content : List Tok) (cb : Tok) (quals : List Tok) (m' : Function) (d1 : DType) (w : World) (b0 bmid bx bo bc bq bb b' : Buf)
+    (blk : Block) (rest : List Block) (hstack : w.stack = blk :: rest) (hk : blk.hdr.kind = .cls)
+    (hmu : w.muted = false) (hfa : ¬ env.faultAt = some w.delivered)
+    (hspec : TypeSpecR env (F + 1) (D + 1 + 1) toks segs cst vol) (htoks : toks = f :: trest)
+    (hty : tok.type = f.type) (htv : tok.value = f.value)
+    (hy0 : Yields env.cfg w.buf trest b0)
+    (hops : opsHeadOk ops = true) (hopsv : ∀ o ∈ ops, o.value ≠ "auto")
+    (hy : Yields env.cfg b0 ops bmid)
+    (ha : applyPtrOps (.type (.mk segs none false) cst vol) (ops.map (·.type)) = some d1)
+    (htx : tokenEofOk env.cfg bmid = .ok (some x, bx)) (hx : x.type = "NAME") (hxv : identVal x.value = true)
+    (hto : tokenEofOk env.cfg bx = .ok (some op, bo)) (hop : op.type = "(")
+    (hparams : ∀ W : World, W.buf = bo → ∃ w7, interp env (parseParametersStep (F + 1) (core (F + 1) (D + 1 + 1 + 1)) true) W = (w7, .ok (plist, false, [])) ∧
+      SameButLog W w7 ∧ w7.buf = bc)
+    (hyq : Yields env.cfg bc quals bq)
+    (haq : applyQuals { plainFunction x d1 doxygen with parameters := plist, isMethod := true, access := blk.access }
+      (quals.map (·.value)) = some m')
+    (htb : tokenEofOk env.cfg bq = .ok (some ob, bb)) (hob : ob.value = "{")
+    (hbal : Balanced "{" "}" content) (hcb : cb.type = "}") (hyb : Yields env.cfg bb (content ++ [cb]) b')
+    (hFq : quals.length + content.length + 2 ≤ F) (hF : ops.length + 2 ≤ F + 1) :
+    ∃ (w7 : World) (ev : Event),
+      interp env (parseDeclarations (F + 1) (core (F + 1) (D + 1 + 1 + 1 + 1)) tok doxygen) w = (w7, .ok ()) ∧
+      w7.buf = b' ∧ w7.stack = { blk with loc := .tok tok.sidx } :: rest ∧
+      w7.events = w.events ++ [ev] ∧ ev.kind = .item (.classMethod { m' with hasBody := true }) ∧
+      ev.stateId = blk.id ∧ ev.parentId = rest.head?.map (·.id) ∧
+      w7.delivered = w.delivered + 1 ∧ w7.anon = w.anon ∧ w7.muted = false ∧ w7.nextId = w.nextId ∧
+      w7.mainTok = w.mainTok := by
+  have hxauto : x.value ≠ "auto" := by
+    have := hxv
+    simp only [identVal, Bool.and_eq_true, Bool.not_eq_true', bne_iff_ne, ne_eq] at this
+    exact this.2
+  -- the token after the type name: the first pointer operator, or the name
+  obtain ⟨nx, bnx, hnx, hnxstop, hnxauto⟩ : ∃ (nx : Tok) (bnx : Buf), tokenEofOk env.cfg b0 = .ok (some nx, bnx) ∧
+      declStart nx.type = true ∧ nx.value ≠ "auto" := by
+    cases ops with
+    | nil =>
+      cases hy
+      exact ⟨x, bx, htx, by rw [hx]; decide, hxauto⟩
+    | cons o os =>
+      cases hy with
+      | cons hto _ =>
+        have ho : o.type = "*" := by simpa [opsHeadOk] using hops
+        exact ⟨o, _, hto, by rw [ho]; decide, hopsv o (by simp)⟩
+  obtain ⟨w1, t1, hi1, hs1, ht1, hty1, hv1⟩ := hspec true tok f trest w b0 bnx nx htoks hty htv hy0 hnx hnxstop
+  obtain ⟨w2, t2, hi2, hs2, ht2, hty2, hv2⟩ := step_tokenIfP_miss env (fun t => ["auto"].contains t.value) w1 t1 bnx ht1
+    (by intro c _ hcv; show ["auto"].contains c.value = false; rw [hcv, hv1]; simp [hnxauto])
+  have hsl2 : SameButLog w w2 := hs1.trans hs2.butLog
+  have htop2 := interp_getTop env w2 blk rest (by rw [hsl2.stack]; exact hstack)
+  -- the stream seen by the declarator loop: the pushed-back copy of `nx`, then as given
+  obtain ⟨ops', x', bmid', hy', hmapeq, hlen, htx', hx', hxv'⟩ : ∃ (ops' : List Tok) (x' : Tok) (bmid' : Buf),
+      Yields env.cfg w2.buf ops' bmid' ∧ ops'.map (·.type) = ops.map (·.type) ∧ ops'.length = ops.length ∧
+      tokenEofOk env.cfg bmid' = .ok (some x', bx) ∧ x'.type = "NAME" ∧ x'.value = x.value := by
+    cases ops with
+    | nil =>
+      cases hy
+      rw [htx] at hnx
+      injection hnx with hnx; injection hnx with h1 h2
+      injection h1 with h1
+      subst h1; subst h2
+      exact ⟨[], t2, w2.buf, .nil _, rfl, rfl, ht2, by rw [hty2, hty1, hx], by rw [hv2, hv1]⟩
+    | cons o os =>
+      cases hy with
+      | cons hto hrest =>
+        rw [hto] at hnx
+        injection hnx with hnx; injection hnx with h1 h2
+        injection h1 with h1
+        subst h1; subst h2
+        exact ⟨t2 :: os, x, bmid, .cons ht2 hrest, by simp [hty2, hty1], by simp, htx, hx, rfl⟩
+  obtain ⟨w7, ev, hi7, hsig, hst7, hev7, hk7, hid7, hpar7, hdl7, han7, hmu7, hnx7, hmt7⟩ :=
+    declarator_method_body env F (D + 1 + 1 + 1) _ (.tok tok.sidx) doxygen ops' x' op ob content cb
+      (plist) quals d1 m' w2 bmid' bx bo bc bq bb b' blk rest
+      (by rw [hsl2.stack]; exact hstack) hk (by rw [hsl2.muted]; exact hmu) (by rw [hsl2.delivered]; exact hfa) rfl hy'
+      (by rw [hmapeq]; exact ha) htx' hx' (by rw [hxv']; exact hxv) hto hop
+      hparams
+      hyq (by simp only [plainFunction, hxv'] at haq ⊢; exact haq) htb hob hbal hcb hyb hFq (by rw [hlen]; omega)
+  refine ⟨w7, ev, ?_, hsig, hst7, by rw [hev7, hsl2.events], ?_, hid7, hpar7, by rw [hdl7, hsl2.delivered],
+    by rw [han7, hsl2.anon], hmu7, by rw [hnx7, hsl2.nextId], by rw [hmt7, hsl2.mainTok]⟩
+  · unfold parseDeclarations
+    simp only [bind, interp_bind, core_parseType, hi1, Option.bind, typenameOf, strTruthy, PQName.classkey, Bool.false_eq_true, ↓reduceIte, pure, interp, Bool.not_false,
+      P.tokenIfVal, hi2, htop2, validate_empty]
+    rw [loopN]
+    simp only [bind, interp_bind, hi7, pure, interp]
+  · rw [hk7]
+
+
+theorem toplevel_method_body_gen (env : Env) (hp : RulesProgress env.cfg = true) (F D : Nat) (w : World)
+    (toks : List Tok) (first : Tok) (trest : List Tok) (segs : List PQSeg) (cst vol : Bool) (ops : List Tok) (x op : Tok) (plist : List Param) (ob : Tok) (content : List Tok) (cb : Tok) (quals : List Tok) (m' : Function) (d1 : DType) (b1 b0 bmid bx bo bc bq bb b' : Buf)
+    (blk : Block) (rest : List Block) (hstack : w.stack = blk :: rest) (hk : blk.hdr.kind = .cls)
+    (hmu : w.muted = false) (hfa : ¬ env.faultAt = some w.delivered)
+    (hspec : TypeSpecR env (F + 1) (D + 1 + 1) toks segs cst vol) (htoks : toks = first :: trest) (hfirst : specFirst first.type = true)
+    (htok : tokenEofOk env.cfg w.buf = .ok (some first, b1))
+    (hy0 : Yields env.cfg b1 trest b0)
+    (hops : opsHeadOk ops = true) (hopsv : ∀ o ∈ ops, o.value ≠ "auto")
+    (hy : Yields env.cfg b0 ops bmid)
+    (ha : applyPtrOps (.type (.mk segs none false) cst vol) (ops.map (·.type)) = some d1)
+    (htx : tokenEofOk env.cfg bmid = .ok (some x, bx)) (hx : x.type = "NAME") (hxv : identVal x.value = true)
+    (hto : tokenEofOk env.cfg bx = .ok (some op, bo)) (hop : op.type = "(")
+    (hparams : ∀ W : World, W.buf = bo → ∃ w7, interp env (parseParametersStep (F + 1) (core (F + 1) (D + 1 + 1 + 1)) true) W = (w7, .ok (plist, false, [])) ∧
+      SameButLog W w7 ∧ w7.buf = bc)
+    (hyq : Yields env.cfg bc quals bq)
+    (htb : tokenEofOk env.cfg bq = .ok (some ob, bb)) (hob : ob.value = "{")
+    (hbal : Balanced "{" "}" content) (hcb : cb.type = "}") (hyb : Yields env.cfg bb (content ++ [cb]) b')
+    (hFq : quals.length + content.length + 2 ≤ F) (hF : ops.length + 2 ≤ F + 1) :
+    ∀ (d : Option String) (bD : Buf), getDoxygen env.cfg env.mcRe w.buf = .ok (d, bD) →
+    applyQuals { plainFunction x d1 d with parameters := plist, isMethod := true, access := blk.access }
+      (quals.map (·.value)) = some m' →
+    ∃ (w7 : World) (ct : CTok) (ev : Event),
+      interp env (mainBody (F + 1) (core (F + 1) (D + 1 + 1 + 1 + 1)) none) w = (w7, .ok (.inl none)) ∧
+      w7.buf = b' ∧ ct.value = first.value ∧ w7.stack = { blk with loc := .tok ct.sidx } :: rest ∧
+      w7.events = w.events ++ [ev] ∧ ev.kind = .item (.classMethod { m' with hasBody := true }) ∧
+      ev.stateId = blk.id ∧ ev.parentId = rest.head?.map (·.id) ∧
+      w7.delivered = w.delivered + 1 ∧ w7.anon = w.anon ∧ w7.muted = false ∧ w7.nextId = w.nextId := by
+  intro d bD hdx haq
+  obtain ⟨d', bD', wA, ct, hd, hsA, hbA, htyc, hv, hi⟩ := mainBody_item env hp (F + 1) (core (F + 1) (D + 1 + 1 + 1 + 1)) w first b1 htok
+  rw [hdx] at hd
+  injection hd with hd; injection hd with hd1 hd2
+  subst hd1; subst hd2
+  obtain ⟨w7, ev, hi7, hsig, hst7, hev7, hk7, hid7, hpar7, hdl7, han7, hmu7, hnx7, _⟩ :=
+    parseDeclarations_method_body_gen env F D ct d toks first trest segs cst vol ops x op plist ob content cb quals m' d1 { wA with mainTok := some ct } b0 bmid bx bo bc bq bb b' blk rest
+      (by show wA.stack = _; rw [hsA.stack]; exact hstack) hk (by show wA.muted = _; rw [hsA.muted]; exact hmu)
+      (by show ¬ env.faultAt = some wA.delivered; rw [hsA.delivered]; exact hfa) hspec htoks htyc hv
+      (by show Yields env.cfg wA.buf _ _; rw [hbA]; exact hy0) hops hopsv hy ha htx hx hxv hto hop hparams hyq haq htb hob hbal hcb hyb hFq hF
+  refine ⟨w7, ct, ev, ?_, hsig, hv, hst7, by rw [hev7]; show wA.events ++ _ = _; rw [hsA.events], hk7, hid7, hpar7,
+    by rw [hdl7]; show wA.delivered + 1 = _; rw [hsA.delivered], by rw [han7]; exact hsA.anon, hmu7,
+    by rw [hnx7]; exact hsA.nextId⟩
+  rw [hi]
+  unfold specFirst at hfirst
+  simp only [Bool.and_eq_true, Option.isNone_iff_eq_none, Bool.not_eq_true'] at hfirst
+  have hti : topItem (F + 1) (core (F + 1) (D + 1 + 1 + 1 + 1)) ct d = parseDeclarations (F + 1) (core (F + 1) (D + 1 + 1 + 1 + 1)) ct d := by
+    unfold topItem
+    rw [htyc, hfirst.1]
+  have hcar : carry ct d = none := by
+    unfold carry
+    rw [htyc, hfirst.2]
+    rfl
+  rw [hti, hi7, hcar]
+
+/-! ### from iterations to `parse()`: the loop is the sequence of its iterations -/
 
 
 
